@@ -18,7 +18,9 @@ struct abyv_entry { int op; int pad; long long off; long long len; char name[48]
 static struct abyv_entry *g_log = 0;
 static long g_log_n = 0, g_log_cap = 0;
 static long g_fail_at = 0;  /* refuse the k-th matching write counted from arming (1-based); 0 = disarmed */
-static int  g_mode = 0;     /* 0: ENOSPC; 1: short write (half) then ENOSPC */
+static int  g_mode = 0;     /* 0: ENOSPC; 1: short write (half) then ENOSPC; 2: file-size limit (RLIMIT_FSIZE like): from the
+                               k-th write on, every write that would end beyond that write's start offset is refused */
+static long long g_limit = -1;
 static long g_count = 0;    /* matching writes since arming */
 static int  g_sticky = 0;   /* once refused, keep refusing until disarmed */
 static long g_refused = 0;
@@ -49,8 +51,8 @@ static void log_add(int op, const char *name, long long off, long long len) {
 /* control: 0 disarm | 1 arm (arg = k) | 2 set mode | 3 log length | 4 clear log | 5 writes since arming | 6 refused count | 7 present? */
 long abyv_ctl(int cmd, long arg) {
     switch (cmd) {
-    case 0: g_fail_at = 0; g_sticky = 0; return 0;
-    case 1: g_fail_at = arg; g_count = 0; g_sticky = 0; g_refused = 0; return 0;
+    case 0: g_fail_at = 0; g_sticky = 0; g_limit = -1; return 0;
+    case 1: g_fail_at = arg; g_count = 0; g_sticky = 0; g_refused = 0; g_limit = -1; return 0;
     case 2: g_mode = (int)arg; return 0;
     case 3: return g_log_n;
     case 4: g_log_n = 0; return 0;
@@ -69,6 +71,17 @@ int abyv_log_get(long i, struct abyv_entry *out) {
 
 static int inject(const char *name, int op, long long off, size_t n, size_t *allowed) {
     /* returns 1 if the write must be refused entirely, 2 if it must be shortened to *allowed */
+    if (g_mode == 2) {
+        if (g_limit >= 0) {
+            if (off + (long long)n > g_limit) { g_refused++; log_add(op + 16, name, off, (long long)n); return 1; }
+            return 0;
+        }
+        if (g_fail_at) {
+            g_count++;
+            if (g_count == g_fail_at) { g_limit = off; g_refused++; log_add(op + 16, name, off, (long long)n); return 1; }
+        }
+        return 0;
+    }
     if (g_sticky) { g_refused++; log_add(op + 16, name, off, (long long)n); return 1; }
     if (g_fail_at) {
         g_count++;
